@@ -1,8 +1,8 @@
 package main
 
-// Channels, select, goroutine spawning (sequential mode: a `go` statement is
-// recorded and driven explicitly by the harness; blocking operations with
-// nothing ready end the path as "blocked"), write journal and lock monitor.
+// Channels, select, goroutines (sequential mode: a `go` statement is recorded and driven
+// explicitly by the harness, blocking operations with nothing ready end the path as "blocked";
+// goroutine mode: cooperative scheduler below), write journal and lock monitor.
 
 import (
 	"fmt"
@@ -12,8 +12,94 @@ import (
 	"golang.org/x/tools/go/ssa"
 )
 
+// ---------- goroutine mode (DESIGN.md §2.4) ----------
+//
+// Cooperative scheduling: a symbolic goroutine is a Go goroutine running the interpreter on its
+// own frame stack; exactly one runs at a time (baton passing). Context switches happen only at
+// synchronisation operations (channel operations, select, close, mutex lock/unlock, go, timer
+// operations, goroutine exit). A switch away from a goroutine that could continue is a
+// pre-emption and is bounded; switches when the current goroutine blocks are always explored.
+// Virtual time advances only when every goroutine is blocked.
+
 type Gor struct {
-	id int
+	id      int
+	name    string
+	done    bool
+	blocked bool
+	ready   func() bool
+	resume  chan struct{}
+	cur     *Frame
+	depth   int
+	why     string
+	main    bool
+}
+
+type selCase struct {
+	c    *ChanObj
+	send bool
+	val  Value
+}
+
+type selState struct {
+	done bool
+	idx  int
+	val  Value
+	ok   bool
+}
+
+type waiter struct {
+	g    *Gor
+	sel  *selState
+	idx  int
+	send bool
+	val  Value
+}
+
+type vtimer struct {
+	c      *ChanObj
+	when   *Term // virtual time (ns, 64-bit, may be symbolic)
+	active bool
+	id     int
+}
+
+type killedGor struct{}
+
+func (ex *Exec) gmodeOn() bool { return ex.sched != nil }
+
+type scheduler struct {
+	gors        []*Gor
+	cur         *Gor
+	preemptLeft int
+	timers      []*vtimer
+	now         *Term
+	asyncTimers bool
+	dead        bool
+	abort       *pathEnd
+	abortPanic  interface{}
+	quiesceWait  bool
+	quiesceUntil *Term
+	switches     int
+}
+
+func (ex *Exec) startGoroutineMode(preempt int, asyncTimers bool) {
+	m := &Gor{id: 0, name: "main", resume: make(chan struct{}, 1), main: true}
+	ex.sched = &scheduler{gors: []*Gor{m}, cur: m, preemptLeft: preempt, now: ex.c64(1 << 40), asyncTimers: asyncTimers}
+}
+
+// killGoroutines releases every parked goroutine at the end of a path.
+func (ex *Exec) killGoroutines() {
+	if ex.sched == nil {
+		return
+	}
+	ex.sched.dead = true
+	for _, g := range ex.sched.gors {
+		if !g.main && !g.done {
+			select {
+			case g.resume <- struct{}{}:
+			default:
+			}
+		}
+	}
 }
 
 func (ex *Exec) spawn(pf preparedFn, args []Value, site ssa.Instruction) {
@@ -26,41 +112,360 @@ func (ex *Exec) spawn(pf preparedFn, args []Value, site ssa.Instruction) {
 	default:
 		panic(pathEnd{kind: endUnsupported, msg: "go builtin"})
 	}
-	ex.gos = append(ex.gos, goCall{fn: fv, args: args})
 	ex.counters["go"]++
+	if !ex.gmodeOn() {
+		ex.gos = append(ex.gos, goCall{fn: fv, args: args})
+		return
+	}
+	sc := ex.sched
+	g := &Gor{id: len(sc.gors), resume: make(chan struct{}, 1)}
+	if c, ok := fv.(*ClosureV); ok && c.fn != nil {
+		g.name = c.fn.Name()
+	}
+	sc.gors = append(sc.gors, g)
+	go func() {
+		<-g.resume
+		defer func() {
+			r := recover()
+			g.done = true
+			if sc.dead {
+				return
+			}
+			if r != nil {
+				if _, killed := r.(killedGor); killed {
+					return
+				}
+				// a path end or an executor panic inside a goroutine ends the whole path
+				if pe, ok := r.(pathEnd); ok {
+					sc.abort = &pe
+				} else {
+					sc.abortPanic = r
+				}
+				sc.dead = true
+				sc.gors[0].resume <- struct{}{}
+				return
+			}
+			// normal exit: hand the baton on
+			ex.schedule(true)
+		}()
+		if sc.dead {
+			panic(killedGor{})
+		}
+		ex.cur, ex.depth = nil, 0
+		ex.callValue(nil, fv, args, site)
+	}()
+	ex.yield("go")
+}
+
+// yield is a scheduling point at which the current goroutine could continue.
+func (ex *Exec) yield(why string) {
+	if !ex.gmodeOn() {
+		return
+	}
+	ex.schedule(false)
+}
+
+// block parks the current goroutine until ready() holds.
+func (ex *Exec) block(why string, ready func() bool) {
+	g := ex.sched.cur
+	g.blocked, g.ready, g.why = true, ready, why
+	ex.schedule(false)
+	g.blocked, g.ready = false, nil
+}
+
+func (ex *Exec) runnable() []*Gor {
+	var r []*Gor
+	for _, g := range ex.sched.gors {
+		if g.done {
+			continue
+		}
+		if g.blocked && !(g.ready != nil && g.ready()) {
+			continue
+		}
+		r = append(r, g)
+	}
+	return r
+}
+
+// fireTimers delivers every timer due at the current virtual time.
+func (ex *Exec) fireTimers() {
+	sc := ex.sched
+	for _, t := range sc.timers {
+		if t.active && ex.branch(ex.ts.Sle(t.when, sc.now)) {
+			t.active = false
+			// a timer is never delivered at exactly its deadline: model the wake-up latency
+			sc.now = ex.ts.Add(sc.now, ex.c64(1000))
+			if len(t.c.buf) < 1 {
+				t.c.buf = append(t.c.buf, ex.timeVal(sc.now))
+			}
+			ex.counters["timer-fired"]++
+		}
+	}
+}
+
+// schedule picks the goroutine that runs next. exiting: the caller is finished.
+func (ex *Exec) schedule(exiting bool) {
+	sc := ex.sched
+	me := sc.cur
+	if sc.dead {
+		panic(killedGor{})
+	}
+	for {
+		run := ex.runnable()
+		var next *Gor
+		meRunnable := false
+		for _, g := range run {
+			if g == me && !exiting {
+				meRunnable = true
+			}
+		}
+		switch {
+		case len(run) == 0:
+			// everyone is blocked: let virtual time pass to the next timer
+			var nt *vtimer
+			for _, t := range sc.timers {
+				if t.active && (nt == nil || ex.branch(ex.ts.Slt(t.when, nt.when))) {
+					nt = t
+				}
+			}
+			if nt != nil && !(sc.quiesceWait && ex.branch(ex.ts.Slt(sc.quiesceUntil, nt.when))) {
+				if ex.branch(ex.ts.Slt(sc.now, nt.when)) {
+					sc.now = nt.when
+				}
+				// timers become due only when time passes: deliver them here
+				ex.fireTimers()
+				continue
+			}
+			// quiescent
+			mg := sc.gors[0]
+			if sc.quiesceWait {
+				sc.quiesceWait = false
+				next = mg
+			} else {
+				pe := pathEnd{kind: endBlocked, msg: "deadlock: every goroutine is blocked: " + ex.blockedSummary()}
+				if me.main && !exiting {
+					panic(pe)
+				}
+				sc.abort = &pe
+				sc.dead = true
+				mg.resume <- struct{}{}
+				if exiting {
+					return
+				}
+				panic(killedGor{})
+			}
+		default:
+			// delay-bounded scheduling: the default is deterministic (continue the current goroutine,
+			// otherwise the next runnable one in round-robin order); deviating from it by k places
+			// costs k units of the budget
+			var cands []*Gor
+			if meRunnable && !me.blocked {
+				cands = append(cands, me)
+			}
+			n := len(sc.gors)
+			for d := 1; d <= n; d++ {
+				g := sc.gors[(me.id+d)%n]
+				if g == me && meRunnable && !me.blocked {
+					continue
+				}
+				for _, r := range run {
+					if r == g && (len(cands) == 0 || cands[0] != g) {
+						cands = append(cands, g)
+					}
+				}
+			}
+			opts := 1 + sc.preemptLeft
+			if opts > len(cands) {
+				opts = len(cands)
+			}
+			k := ex.choose(opts)
+			if k > 0 {
+				sc.preemptLeft -= k
+				ex.counters["preemptions"] += k
+			}
+			next = cands[k]
+		}
+		if next == me && !exiting {
+			return
+		}
+		sc.cur = next
+		sc.switches++
+		myCur, myDepth := ex.cur, ex.depth
+		next.resume <- struct{}{}
+		if exiting {
+			return
+		}
+		<-me.resume
+		if sc.dead {
+			if me.main {
+				if sc.abortPanic != nil {
+					panic(sc.abortPanic)
+				}
+				if sc.abort != nil {
+					panic(*sc.abort)
+				}
+			}
+			panic(killedGor{})
+		}
+		sc.cur = me
+		ex.cur, ex.depth = myCur, myDepth
+		return
+	}
+}
+
+func (ex *Exec) blockedSummary() string {
+	s := ""
+	for _, g := range ex.sched.gors {
+		if !g.done && g.blocked {
+			s += fmt.Sprintf("[%s: %s] ", g.name, g.why)
+		}
+	}
+	return s
+}
+
+// ---- channels ----
+
+func caseReady(c selCase) bool {
+	if c.c == nil {
+		return false
+	}
+	if c.send {
+		return c.c.closed || len(c.c.buf) < c.c.cap || len(c.c.recvq) > 0
+	}
+	return len(c.c.buf) > 0 || c.c.closed || len(c.c.sendq) > 0
+}
+
+func removeWaiter(q []*waiter, sel *selState) []*waiter {
+	out := q[:0]
+	for _, w := range q {
+		if w.sel != sel {
+			out = append(out, w)
+		}
+	}
+	return out
+}
+
+// doSelect implements send, receive and select in both modes.
+func (ex *Exec) doSelect(cases []selCase, blocking bool, site ssa.Instruction) (int, Value, bool) {
+	if ex.gmodeOn() {
+		ex.yield("chan-op")
+	}
+	for {
+		var ready []int
+		for i, c := range cases {
+			if caseReady(c) {
+				ready = append(ready, i)
+			}
+		}
+		if len(ready) > 0 {
+			k := ready[ex.choose(len(ready))]
+			c := cases[k]
+			ch := c.c
+			ex.noteWriteOther(ch)
+			if c.send {
+				if ch.closed {
+					ex.implicitPanic("send-on-closed", ex.ts.True, site)
+				}
+				if len(ch.recvq) > 0 {
+					w := ch.recvq[0]
+					ch.recvq = ch.recvq[1:]
+					w.sel.done, w.sel.idx, w.sel.val, w.sel.ok = true, w.idx, ex.copyVal(c.val), true
+				} else {
+					ch.buf = append(ch.buf, ex.copyVal(c.val))
+				}
+				return k, nil, true
+			}
+			if len(ch.buf) > 0 {
+				v := ch.buf[0]
+				ch.buf = ch.buf[1:]
+				// a sender parked on a full buffered channel can now proceed
+				if len(ch.sendq) > 0 {
+					w := ch.sendq[0]
+					ch.sendq = ch.sendq[1:]
+					ch.buf = append(ch.buf, w.val)
+					w.sel.done, w.sel.idx, w.sel.ok = true, w.idx, true
+				}
+				return k, v, true
+			}
+			if len(ch.sendq) > 0 {
+				w := ch.sendq[0]
+				ch.sendq = ch.sendq[1:]
+				w.sel.done, w.sel.idx, w.sel.ok = true, w.idx, true
+				return k, w.val, true
+			}
+			return k, ex.zero(ch.et), false // closed
+		}
+		if !blocking {
+			return -1, nil, false
+		}
+		if !ex.gmodeOn() {
+			panic(pathEnd{kind: endBlocked, msg: "blocking channel operation at " + ex.posOf(site)})
+		}
+		// park on every case
+		sel := &selState{}
+		g := ex.sched.cur
+		for i, c := range cases {
+			if c.c == nil {
+				continue
+			}
+			w := &waiter{g: g, sel: sel, idx: i, send: c.send, val: c.val}
+			if c.send {
+				c.c.sendq = append(c.c.sendq, w)
+			} else {
+				c.c.recvq = append(c.c.recvq, w)
+			}
+		}
+		ex.block("chan@"+ex.posOf(site), func() bool {
+			if sel.done {
+				return true
+			}
+			for _, c := range cases {
+				if c.c == nil {
+					continue
+				}
+				// buffer/closed state may have changed (timers, close); counterpart queues are handled by the counterpart
+				if c.send && (c.c.closed || len(c.c.buf) < c.c.cap) {
+					return true
+				}
+				if !c.send && (len(c.c.buf) > 0 || c.c.closed) {
+					return true
+				}
+			}
+			return false
+		})
+		for _, c := range cases {
+			if c.c != nil {
+				c.c.sendq = removeWaiter(c.c.sendq, sel)
+				c.c.recvq = removeWaiter(c.c.recvq, sel)
+			}
+		}
+		if sel.done {
+			return sel.idx, sel.val, sel.ok
+		}
+	}
 }
 
 func (ex *Exec) chanSend(cv Value, v Value, site ssa.Instruction) {
 	c, _ := cv.(*ChanObj)
 	if c == nil {
+		if ex.gmodeOn() {
+			ex.block("send on nil channel", func() bool { return false })
+		}
 		panic(pathEnd{kind: endBlocked, msg: "send on nil channel"})
 	}
-	if c.closed {
-		ex.implicitPanic("send-on-closed", ex.ts.True, site)
-	}
-	ex.noteWriteOther(c)
-	if len(c.buf) < c.cap {
-		c.buf = append(c.buf, ex.copyVal(v))
-		return
-	}
-	panic(pathEnd{kind: endBlocked, msg: "blocking send at " + ex.posOf(site)})
+	ex.doSelect([]selCase{{c: c, send: true, val: v}}, true, site)
 }
 
 func (ex *Exec) chanRecv(cv Value, site ssa.Instruction) (Value, bool) {
 	c, _ := cv.(*ChanObj)
 	if c == nil {
+		if ex.gmodeOn() {
+			ex.block("recv on nil channel", func() bool { return false })
+		}
 		panic(pathEnd{kind: endBlocked, msg: "recv on nil channel"})
 	}
-	if len(c.buf) > 0 {
-		ex.noteWriteOther(c)
-		v := c.buf[0]
-		c.buf = c.buf[1:]
-		return v, true
-	}
-	if c.closed {
-		return ex.zero(c.et), false
-	}
-	panic(pathEnd{kind: endBlocked, msg: "blocking recv at " + ex.posOf(site)})
+	_, v, ok := ex.doSelect([]selCase{{c: c}}, true, site)
+	return v, ok
 }
 
 func (ex *Exec) chanClose(c *ChanObj, site ssa.Instruction) {
@@ -72,59 +477,34 @@ func (ex *Exec) chanClose(c *ChanObj, site ssa.Instruction) {
 	}
 	ex.noteWriteOther(c)
 	c.closed = true
+	if ex.gmodeOn() {
+		ex.yield("close")
+	}
 }
 
 func (ex *Exec) selectOp(fr *Frame, x *ssa.Select) Value {
-	// result tuple: (index int, recvOk bool, r_0 T_0, ... r_n-1 T_n-1) for recv states
-	type st struct {
-		c    *ChanObj
-		send bool
-		v    Value
-	}
-	states := make([]st, len(x.States))
-	var ready []int
-	for i, s := range x.States {
-		c, _ := ex.get(fr, s.Chan).(*ChanObj)
-		states[i] = st{c: c, send: s.Dir == types.SendOnly}
-		if s.Send != nil {
-			states[i].v = ex.get(fr, s.Send)
-		}
-		if c == nil {
-			continue
-		}
-		if states[i].send {
-			if c.closed {
-				ready = append(ready, i)
-			} else if len(c.buf) < c.cap {
-				ready = append(ready, i)
-			}
-		} else if len(c.buf) > 0 || c.closed {
-			ready = append(ready, i)
-		}
-	}
-	// build result with zero recv slots
+	// result tuple: (index int, recvOk bool, r_0 T_0, ... ) for recv states
+	cases := make([]selCase, len(x.States))
 	out := TupleV{nil, ex.ts.False}
 	recvSlot := map[int]int{}
 	for i, s := range x.States {
+		c, _ := ex.get(fr, s.Chan).(*ChanObj)
+		cases[i] = selCase{c: c, send: s.Dir == types.SendOnly}
+		if s.Send != nil {
+			cases[i].val = ex.get(fr, s.Send)
+		}
 		if s.Dir != types.SendOnly {
 			recvSlot[i] = len(out)
 			out = append(out, ex.zero(chanElem(s.Chan)))
 		}
 	}
-	if len(ready) == 0 {
-		if !x.Blocking {
-			out[0] = ex.ts.Const(64, ^uint64(0))
-			return out
-		}
-		panic(pathEnd{kind: endBlocked, msg: "blocking select at " + ex.posOf(x)})
+	k, v, ok := ex.doSelect(cases, x.Blocking, x)
+	if k < 0 {
+		out[0] = ex.ts.Const(64, ^uint64(0))
+		return out
 	}
-	k := ready[ex.choose(len(ready))]
 	out[0] = ex.c64(uint64(k))
-	s := states[k]
-	if s.send {
-		ex.chanSend(s.c, s.v, x)
-	} else {
-		v, ok := ex.chanRecv(s.c, x)
+	if !cases[k].send {
 		out[recvSlot[k]] = v
 		out[1] = ex.ts.Bool(ok)
 	}
